@@ -1005,17 +1005,11 @@ impl<Id: EntityId> PropertyColumn<Id> {
 
         match op {
             CompareOp::Eq => self.zone_map.might_contain_equal(value),
-            CompareOp::Ne => {
-                // Can only skip if all values are equal to the value
-                // (which means min == max == value)
-                match (&self.zone_map.min, &self.zone_map.max) {
-                    (Some(min), Some(max)) => {
-                        !(compare_values(min, value) == Some(Ordering::Equal)
-                            && compare_values(max, value) == Some(Ordering::Equal))
-                    }
-                    _ => true,
-                }
-            }
+            // min/max only summarise the values comparable with them: a value of another
+            // type or a NaN is not reflected in either bound but does satisfy `<>`, so
+            // min == max == value does not mean every row equals the value. Never skip
+            // (as ComparisonPredicate::might_match_chunk does).
+            CompareOp::Ne => true,
             CompareOp::Lt => self.zone_map.might_contain_less_than(value, false),
             CompareOp::Le => self.zone_map.might_contain_less_than(value, true),
             CompareOp::Gt => self.zone_map.might_contain_greater_than(value, false),
